@@ -150,7 +150,8 @@ func Alphabet() []Gen {
 			return nk.GovPayload("v1setOwner", types.EncodeAddress(nk.UserAddrs[D]))
 		}),
 		{Name: "C deploy", Make: func(e *Env) *types.Tx {
-			return nk.MakeTx(nk.TxSpec{From: C, Nonce: e.next(C), Amount: nil, Type: types.TxType_DEPLOY,
+			// the contract is endowed with 5 aergo so that fee-delegated calls can be paid by it
+			return nk.MakeTx(nk.TxSpec{From: C, Nonce: e.next(C), Amount: new(big.Int).Mul(big.NewInt(5), aergo), Type: types.TxType_DEPLOY,
 				Payload: nk.JSON(map[string]interface{}{"code": "x", "ctor": [][]interface{}{{"set", "k0", "v0"}}})}, e.Cid)
 		}},
 		{Name: "C deploy ctor fails", Make: func(e *Env) *types.Tx {
